@@ -586,6 +586,10 @@ func tamper(d delegation.Delegation, sp *TokSpec) (delegation.Delegation, error)
 		m.S = m.S[:10]
 	case "sighugesize":
 		m.S = append([]byte{0xed, 0xa1, 0x03}, append(varint.ToUvarint(1<<62), 1, 2, 3, 4)...)
+	case "sigsizemax":
+		m.S = append([]byte{0xed, 0xa1, 0x03}, append(varint.ToUvarint(1<<63-1), 1, 2, 3, 4)...)
+	case "sigsizenearmax":
+		m.S = append([]byte{0xed, 0xa1, 0x03}, append(varint.ToUvarint(1<<63-12), m.S[5:]...)...)
 	case "sigbadcode":
 		m.S = append([]byte{0x01}, m.S[3:]...)
 	case "sigbadvarint":
